@@ -5,7 +5,7 @@ import props.cpu_common as cc
 
 MANIFEST = {
     "level": "proof",
-    "text": "Lemmas over the real halt/next/checkInterrupts/ExecuteMachineCycle code with IE, IF, IME and all registers symbolic: (1) executing HALT sets halted unless IME is clear and a request is already pending, in which case it sets haltbug instead, takes one cycle and changes nothing else; (2) idle invariant - halted and nothing pending: one ExecuteMachineCycle call changes no architectural CPU field, no interrupt register and performs no bus access (inductive, hence for any idle length, no bound); (3) halted, IME set, request pending: the dispatch of C04 happens in exactly 6 calls (one more than from a running CPU) with no fetch; (4) halted, IME clear, request pending: exactly one call with no bus access that changes neither IF/IE nor PC/SP/registers and clears halted, after which the instruction at PC is fetched; (5) halt bug - for every defined opcode (base and CB) executed with haltbug set, the instruction has its documented effect computed as if it were located one byte earlier (the opcode fetch does not advance PC, so the byte after HALT is decoded twice) and haltbug is cleared. Outside the instruction cycle: the button-press callback OnInput is verified against 'assigns cpu.stopped' (it cannot end HALT), and an SSA scan shows the halted/haltbug flags are written by halt(), checkInterrupts() and next() only. The interrupt-controller contracts the lemmas rely on (Pending = IE & IF & 0x1F != 0, Enabled, the per-source predicates) are discharged in this check as well.",
+    "text": "Lemmas over the real halt/next/checkInterrupts/ExecuteMachineCycle code with IE, IF, IME and all registers symbolic: (1) executing HALT sets halted unless IME is clear and a request is already pending, in which case it sets haltbug instead, takes one cycle and changes nothing else; (2) idle invariant - halted and nothing pending: one ExecuteMachineCycle call changes no architectural CPU field, no interrupt register and performs no bus access (inductive, hence for any idle length, no bound); (3) halted, IME set, request pending: the dispatch of C04 happens in exactly 6 calls (one more than from a running CPU) with no fetch; (4) halted, IME clear, request pending: exactly one call with no bus access that changes neither IF/IE nor PC/SP/registers and clears halted, after which the instruction at PC is fetched; (5) halt bug - for every defined opcode (base and CB) executed with haltbug set, the instruction has its documented effect computed as if it were located one byte earlier (the opcode fetch does not advance PC, so the byte after HALT is decoded twice) and haltbug is cleared. Outside the instruction cycle: the button-press callback OnInput is verified against 'assigns cpu.stopped' (it cannot end HALT), and an SSA scan shows the halted/haltbug flags are written by halt(), checkInterrupts() and next() only. The interrupt-controller contracts the lemmas rely on (Pending = IE & IF & 0x1F != 0, Enabled, the per-source predicates) are discharged in this check as well. The same idle lemma is proved for a CPU stopped by STOP (lemma:stop-idle).",
     "note": "Same trusted base as C01/C04. The request 'appearing' is modelled as the hardware setting an IF bit between two calls (any IF/IE value satisfying the hypothesis). A built-in canary obligation must fail on every run.",
     "technique": "sequence lemmas + an inductive idle invariant over the real go/ssa of the CPU boundary logic; z3",
     "design_ref": "DESIGN.md section 4 C05",
